@@ -523,6 +523,16 @@ func (c *Ctx) hookSummary(b string, f *ssa.Function, depth int) []opSummary {
 				}
 			}
 			out = append(out, opSummary{"del", k, "-", nil, guardsOf(ins)})
+		case b != "redis" && len(cc.Args) > 0 && describe(cc.Args[0]) == "h.db" && !strings.HasPrefix(n, pfx) && strings.HasPrefix(f.Name(), "On"):
+			// an event method talks to the storage engine directly instead of through setKv/delKv: part of the
+			// summary, so that a range delete or a write with other options shows up as a sibling difference
+			k := "?"
+			for _, a := range cc.Args[1:] {
+				if kk := keyOf(a); kk != "?" {
+					k = kk
+				}
+			}
+			out = append(out, opSummary{"engine:" + n[strings.LastIndex(n, ".")+1:], k, "-", nil, guardsOf(ins)})
 		case strings.HasPrefix(n, pfx) && cc.StaticCallee() != nil && cc.StaticCallee() != f:
 			// helper of the same hook (updateClient, OnQosComplete…): expand, prefixing the caller's guards
 			g := guardsOf(ins)
